@@ -206,6 +206,8 @@ type Stats struct {
 	SpecOK    int64
 	SpecRej   int64
 	Inadm     int64
+	InadmBy   map[string]int64 // per stream: texts the reference reader puts outside the claim
+	SpecOKBy  map[string]int64 // per stream: texts the reference reader accepts
 	Illformed int64
 	Classes   map[string]int64
 	Nontriv   *lib.Distinct
@@ -213,7 +215,8 @@ type Stats struct {
 }
 
 func NewStats() *Stats {
-	return &Stats{PerStream: map[string]int64{}, Classes: map[string]int64{}, Nontriv: lib.NewDistinct()}
+	return &Stats{PerStream: map[string]int64{}, Classes: map[string]int64{}, Nontriv: lib.NewDistinct(),
+		InadmBy: map[string]int64{}, SpecOKBy: map[string]int64{}}
 }
 
 func nontrivial(t string) bool {
@@ -257,7 +260,10 @@ func specVerdict(goLine, specLine string) (string, string) {
 			return "holds", "same forest"
 		}
 		if strings.HasPrefix(goLine, "rej ") {
-			return "violates", "the reference reader accepts the text (" + specLine + "), the implementation rejects it"
+			return "violates", "the text is a well-formed sequence of statements, the implementation rejects it (" + goLine + "); reference reader: " + specLine
+		}
+		if d := describeForestDiff(goLine, specLine); d != "" {
+			return "violates", "the returned forest is not that of the text: " + d + "; reference reader: " + specLine
 		}
 		return "violates", "forest differs from the reference reader's: " + specLine
 	}
@@ -417,12 +423,14 @@ func (ck *Checker) Run(cases []Case) {
 		switch {
 		case s == "inadmissible":
 			st.Inadm++
+			st.InadmBy[c.Stream]++
 		case s == "illformed":
 			st.Illformed++
 		case s == "rej":
 			st.SpecRej++
 		default:
 			st.SpecOK++
+			st.SpecOKBy[c.Stream]++
 		}
 		if ck.samples < 8 && i%(n/3+1) == 0 {
 			ck.samples++
@@ -526,6 +534,16 @@ func (ck *Checker) Finish() {
 	d["spec_rejects"] = st.SpecRej
 	d["spec_inadmissible_skipped"] = st.Inadm
 	d["spec_illformed_skipped"] = st.Illformed
+	by := map[string]int64{}
+	for k, v := range st.InadmBy {
+		by[k] = v
+	}
+	d["spec_inadmissible_by_stream"] = by
+	ok := map[string]int64{}
+	for k, v := range st.SpecOKBy {
+		ok[k] = v
+	}
+	d["spec_accepts_by_stream"] = ok
 	cl := map[string]int64{}
 	for k, v := range st.Classes {
 		cl[k] = v
@@ -577,6 +595,11 @@ func Seeds() []string {
 		"foo \"a\" \"+\";",
 		"foo \"a\" + '+';",
 		"module m { // c\n  leaf l { type string; description \"one\n                                 two\"; } /* x */ }",
+		// C02-j22: the same raw multi-line string at two quote columns (two statements, two pieces of one concatenation)
+		"a \"x\n     y\";\nbb \"x\n     y\";\n",
+		"bbbb \"x\n      y\";\na \"x\n      y\";\n",
+		"k \"x\n     y\" +\n     \"x\n     y\";\n",
+		"pattern \"a\\tb\\\\d\"; x \"a\\tb\\\\d\" { pattern 'q' + \"a\\tb\\\\d\"; }",
 	}
 }
 
